@@ -118,7 +118,9 @@ def families(tier, seed):
     import random
     rng = random.Random(seed)
     kinds = ['Point', 'Line', 'HalfLine', 'Segment', 'Plane']
-    frames = ['axis', 'oblique'] if tier == 'quick' else ['axis', 'planar', 'oblique', 'pyth3', 'pyth7', 'shear', B.random_frame_name(rng), B.random_frame_name(rng)]
+    # quick: third frame pyth7 (unit vectors with non-dyadic rational components: float dot products of exactly orthogonal / parallel
+    # directions do not cancel exactly there) for the templates whose answer hinges on an exact cancellation
+    frames = ['axis', 'oblique', 'pyth7'] if tier == 'quick' else ['axis', 'planar', 'oblique', 'pyth3', 'pyth7', 'shear', B.random_frame_name(rng), B.random_frame_name(rng)]
     fams = []
     for fi, fr_name in enumerate(frames):
         perms = [None] if tier == 'quick' else [None, rng.randrange(48)]
@@ -129,7 +131,9 @@ def families(tier, seed):
                     key = (_cls(ka), _cls(kb))
                     temps = TEMPLATES.get(key, ['slice'])
                     for tp in temps:
-                        if tier == 'quick' and fi > 0 and tp in ('parallel', 'skew', 'crossneg', 'tiltneg'):
+                        if tier == 'quick' and fi > 0 and tp in ('parallel', 'skew', 'crossneg', 'tiltneg') and fr_name != 'pyth7':
+                            continue
+                        if tier == 'quick' and fr_name == 'pyth7' and tp not in ('collinear', 'parallel', 'lift', 'offset'):
                             continue
                         for swap in ((False,) if tier == 'quick' and fi > 0 else (False, True)):
                             method = (fi % 2 == 1)
